@@ -193,7 +193,8 @@ func endToEnd(c *mon.Ctx, r *gen.Rand) {
 	if withO {
 		e2 = af.SetHasOPCR(true)
 	}
-	if r.Chance(3) { // further optional fields behind the clock references
+	hasSplice := r.Chance(3)
+	if hasSplice { // further optional fields behind the clock references
 		af.SetHasSplicingPoint(true)
 		af.SetSpliceCountdown(r.Byte())
 	}
@@ -210,6 +211,11 @@ func endToEnd(c *mon.Ctx, r *gen.Rand) {
 		if err := af.SetOPCR(o); err != nil {
 			c.Fail("e2e:setopcr", "SetOPCR failed: "+err.Error(), wit{Op: "SetOPCR", Value: o})
 		}
+	}
+	if hasSplice && r.Bool() {
+		// the field behind the clock references is written after them (the setters come in any order)
+		af.SetSpliceCountdown(r.Byte())
+		c.Count("e2e.splice_countdown_set_after_the_clocks")
 	}
 	if r.Chance(3) {
 		// enabling a field that is already enabled changes nothing
@@ -534,8 +540,8 @@ func run(c *mon.Ctx) {
 		}
 	})
 	c.Floor("concurrent.calls", 20000)
-	c.Stream("concurrent-codecs", c.N(3, 150), func(i int, r *gen.Rand) {
-		c.Concurrent("InsertPCR/ExtractPCR/InsertPTS/ExtractTime", 8, 1000, r, func(q *gen.Rand) string {
+	c.Stream("concurrent-codecs", c.N(8, 200), func(i int, r *gen.Rand) {
+		c.Concurrent("InsertPCR/ExtractPCR/InsertPTS/ExtractTime", 8, 20000, r, func(q *gen.Rand) string {
 			v, w := q.Uint64()%ref.PCRMax, q.U33()
 			b := q.Bytes(16)
 			gots.InsertPCR(b[0:6], v)
